@@ -207,7 +207,7 @@ class X12Base(object):
         """
         try:
             return int(str_val)
-        except ValueError:
+        except (ValueError, TypeError):
             return None
         return None
 
